@@ -246,6 +246,9 @@ def check_case(ctx, case):
                 variants.append(("extra-positional", list(args) + [gs.Obj("extra")] * 3, dict(kwargs)))
             if not any(p["kind"] == "vk" for p in params):
                 variants.append(("unknown-keyword", list(args), dict(kwargs, no_such_parameter_zz=1)))
+            if any(p["kind"] in ("ko", "vk") for p in params) and not any(p["kind"] == "va" for p in params):
+                # as many positionals as there are parameters, although some of them are keyword-only / **kwargs
+                variants.append(("positional-for-keyword-only", [gs.Obj(f"pos{j}") for j in range(len(params))], {}))
             pk = [p for p in params if p["kind"] == "pk"]
             if pk and args and not any(p["kind"] == "vk" for p in params):
                 # first positional-or-keyword parameter passed both ways
@@ -300,8 +303,8 @@ def c07_case(draw):
         "descriptor": desc,
         "fname": draw(st.sampled_from([n for n in gs.FN_NAMES if n not in {p["name"] for p in params} or True])),
         "checker": draw(st.sampled_from(["beartype", "typeguard"])),
-        "styles": [0, draw(st.integers(1, 15)), 15],
-        "ret_ann": draw(st.sampled_from([None, None, "obj"])) if kind != "async" else draw(st.sampled_from([None, "obj"])),
+        "styles": [0, draw(st.integers(1, 15)), 15, draw(st.integers(16, 31))],
+        "ret_ann": draw(st.sampled_from(["obj", None, None])) if kind != "async" else draw(st.sampled_from([None, "obj"])),
         "lambda_annotations": draw(st.sampled_from([True, False])),
     }
     return case
